@@ -8,6 +8,12 @@
 // script which connection objects the bridge holds and whether a marker written by the other
 // ends is readable on each connection. The judge (spec/TunnelOpenTrace.tla) computes the
 // property's "entitled" predicate from the logged cell and decides.
+//
+// Late cells (tunnel states lateLocal / lateRemote): the requester's TunnelOpen is served in its
+// own goroutine; once it is past the dispatch the legitimate source registers the tunnel (same /
+// other node), so that the request's routing-table poll (handleTargetBridge ->
+// lookupTunnelRouting) finds it - the branch on which only processCrossNodeForward compares the
+// presented mapping with the tunnel's mapping.
 package main
 
 import (
